@@ -59,6 +59,9 @@ struct Scheduler {
   uint32_t preemption_bound = UINT32_MAX;
   uint32_t preemptions = 0;
   bool at_spawn = false;
+  // beyond the end of a mode-1 schedule: false = keep running the current thread; true = rotate over the runnable
+  // threads (needed when a range is too long for one thread to be allowed to monopolise the processor)
+  bool fair_tail = false;
   // what happened
   size_t decisions = 0; // number of choice points (>= 2 runnable) met
   std::vector<uint32_t> taken; // choice index taken at each choice point
@@ -84,6 +87,7 @@ struct Scheduler {
     preemption_bound = bound;
     preemptions = 0;
     at_spawn = false;
+    fair_tail = false;
     // any thread left over from a previous (buggy) run has been drained by finish()
     for (auto& t : threads)
       if (t->stack) stack_pool.push_back(t->stack);
@@ -139,6 +143,8 @@ struct Scheduler {
         for (size_t k = 0; k < nr; k++)
           if (static_cast<uint32_t>(r[k]) == pref) idx = k;
         if (idx == UINT32_MAX) idx = pref % nr;
+      } else if (fair_tail) {
+        idx = static_cast<uint32_t>(decisions % nr);
       } else {
         idx = 0;
         for (size_t k = 0; k < nr; k++)
@@ -169,6 +175,32 @@ struct Scheduler {
     size_t os;
     __sanitizer_finish_switch_fiber(fake, &ob, &os);
 #endif
+  }
+
+  // usleep() inside the code under test (the progress loop of parallel_range): the sleeper hands the processor to
+  // some other runnable thread if there is one (a choice point when several are), so a polling loop cannot spin
+  // forever and the schedule tree stays finite. Never counts as a preemption.
+  void sleep_yield() {
+    if (!active) return;
+    int self = running;
+    int r[16];
+    size_t nr = 0;
+    for (size_t i = 0; i < threads.size() && nr < 16; i++)
+      if (static_cast<int>(i) != self && runnable(static_cast<int>(i))) r[nr++] = static_cast<int>(i);
+    if (nr == 0) return;
+    if (++points > point_limit) abort_run("step-limit: more than 2000000 scheduling points");
+    uint32_t idx = 0;
+    if (nr > 1) {
+      if (mode == 0) {
+        idx = decisions < schedule.size() ? schedule[decisions] % nr : 0;
+      } else {
+        idx = decisions < schedule.size() ? schedule[decisions] % nr : 0;
+      }
+      taken.push_back(idx);
+      branching.push_back(static_cast<uint32_t>(nr));
+      decisions++;
+    }
+    switch_to(self, r[idx]);
   }
 
   // scheduling point of the running thread `self`
